@@ -477,8 +477,9 @@ def check_anchors(ctx, found):
     # for each trait-impl method with a role implemented by a type that owns an arena accessor in its module
     fns_with_loop = {fn.path for fn, _ in found}
     trees = prog.tree_adts
-    if len(trees) < 3:
-        ctx.anchor_missing(RULE, 'tree ADTs (struct with a pool and a root link)', ['C01', 'C04', 'C05', 'C06', 'C08'], len(trees), 3)
+    for fam, fprops in (('map', ['C04', 'C08']), ('set', ['C05', 'C08']), ('key', ['C01', 'C06'])):
+        if not any(t.split('::')[0] == fam for t in trees):
+            ctx.anchor_missing(RULE, 'tree ADT of the %s family (struct with a pool and a root link)' % fam, fprops, 0, 1)
     for fn in prog.fns.values():
         m = fn.trait_method()
         if not m or m not in ROLE_BY_METHOD or fn.self_adt not in trees:
